@@ -6,7 +6,7 @@
 From Coq Require Import ZArith List.
 From NV Require Import Common.Py Common.Trans Spec.TimeSpec Gen.BintimeGen Model.Convert
   Corr.C04Spec Corr.C04Model Proofs.ConvertProofs Proofs.C04Proofs.
-From NV Require Model.Complex Model.Scaling Model.TotalSeconds Proofs.C04Float.
+From NV Require Model.Complex Model.Scaling Model.TotalSeconds Proofs.C04Float Proofs.C04Decimal.
 Open Scope Z_scope.
 
 (* bintime -> datetime: rounded down, error in [0, 1 us)  (t/2^64 - r/10^6 in [0, 10^-6)) *)
@@ -115,3 +115,14 @@ Theorem C04_total_seconds_error : forall t mw qw mf qf ms qs,
     2 * Z.abs (ms * 2 ^ (qs - s) - t * 2 ^ (-64 - s)) <= 2 ^ (qw - s) + 2 ^ (qf - s) + 2 ^ (qs - s).
 Proof. exact C04Float.total_seconds_err. Qed.
 Print Assumptions C04_total_seconds_error.
+
+(* TimeDelta(x.precision_total_seconds()) == x for every TimeDelta, given the decimal module's guarantee
+   for its two operations at 64 significant digits (the quotient frac/2^64 within 10^-64/2, the sum
+   whole+q within 10^-45/2): 10^-45 is far below a quarter tick *)
+Theorem C04_precision_roundtrip : forall t nq dq nD dD,
+  in128 t = true -> 0 < dq -> 0 < dD ->
+  2 * 10 ^ 64 * Z.abs (nq * T64 - (t mod T64) * dq) <= dq * T64 ->
+  2 * 10 ^ 45 * Z.abs (nD * dq - ((t / T64) * dq + nq) * dD) <= dD * dq ->
+  ctor_rat nD dD = Ok t.
+Proof. exact C04Decimal.precision_roundtrip. Qed.
+Print Assumptions C04_precision_roundtrip.
